@@ -103,11 +103,16 @@ def compare(ctx, impl_lines, label, stats):
             if obs == model:
                 stats["model_agree"] += 1
         if obs in alts:
+            if model is not None and obs != model:
+                # level B alone fails: golua does what the manual says but not what the mirror of its own
+                # position handling (the definitions the gosub/gobyte/find_plain tie theorems are about) computes
+                ctx.violation("levelB %s => %s [Model.StrLib: %s]" % (inp, obs[:100], model[:100]),
+                              "golua agrees with the spec but not with Model.StrLib, the mirror of stringlib.go/"
+                              "matching.go over the regenerated leaf functions: gosub_eq_spec / gobyte_eq_spec / "
+                              "find_plain_model_eq_spec no longer speak about this code",
+                              "c19 replay %s\nobserved %s\nmodel %s\n" % (inp, obs, model), found_input=False)
             continue
-        suffix = ""
-        if model is not None and obs == model:
-            suffix = " [as Model.StrLib mirrors the Go code]"
-        ctx.violation("%s => %s%s" % (inp, obs if len(obs) < 120 else obs[:117] + "...", suffix),
+        ctx.violation("%s => %s" % (inp, obs if len(obs) < 120 else obs[:117] + "..."),
                       "golua: %s; the manual (Spec.StrLib/TabLib) prescribes: %s" % (obs[:300], " or ".join(alts)[:300]),
                       "c19 replay %s\nobserved %s\nexpected %s\n" % (inp, obs, " | ".join(alts)))
     step = max(1, len(impl_lines) // 4)
@@ -177,13 +182,6 @@ def run(ctx):
         with open(dump, "w") as f:
             for v in ctx.violations:
                 f.write(v.key + "\t" + v.desc + "\n")
-    if stats["model_lines"] and stats["model_agree"] != stats["model_lines"]:
-        # informational (never fatal): Model.StrLib.goFindPlain mirrors matching.go's plain branch including its
-        # defect; if golua stops agreeing with the mirror while agreeing with the spec, the code was changed
-        # (e.g. fixed) and find_plain_offset_counterexample / find_plain_model_offset no longer describe it
-        ctx.extra["levelB_note"] = ("Model.StrLib (mirror of stringlib.go/matching.go position handling) predicted %d of %d "
-                                    "golua results; the rest agree with the spec or are reported as violations"
-                                    % (stats["model_agree"], stats["model_lines"]))
     ctx.extra["levelB_model_lines"] = stats["model_lines"]
     ctx.extra["levelB_model_agrees_with_golua"] = stats["model_agree"]
 
